@@ -6,6 +6,7 @@ Import ListNotations.
 Inductive cstmt :=
 | SCall (f : string)                       (* f(...) on the object itself *)
 | SCallOn (obj f : string)                 (* obj.f(...) / obj->f(...) *)
+| SCallArgs (f : string) (args : list string)   (* f(args) with the argument paths; also ("<", [a; b]) = loop condition, ("++", [..]) = loop increments *)
 | SNull (fld : string)                     (* fld = nullptr *)
 | SAssign (l r : string)
 | SSwap (fld : string)
